@@ -32,20 +32,74 @@ theorem tie_clampReplicas (R : Nat) (replicas : Int) :
   unfold GoZero.Extracted.C15.clampReplicas GoZero.C15.clampReplicas
   by_cases h : replicas > (R : Int) <;> simp [h]
 
-/-- `AddWithWeight`: `h.replicas * weight / TopWeight` with Go's truncating division. -/
-theorem tie_weightReplicas (R : Nat) (weight : Int) :
+/-- a product that fits a Go `int` is not changed by the wrap-around -/
+theorem wrapInt_id (x : Int) (h : -9223372036854775808 ≤ x ∧ x < 9223372036854775808) : wrapInt x = x := by
+  unfold wrapInt; omega
+
+/-- the wrap-around always lands in the range of a Go `int` and is congruent to the product mod 2^64 -/
+theorem wrapInt_range (x : Int) :
+    -9223372036854775808 ≤ wrapInt x ∧ wrapInt x < 9223372036854775808 ∧
+      (wrapInt x - x) % 18446744073709551616 = 0 := by
+  unfold wrapInt; omega
+
+/-- `AddWithWeight`: `h.replicas * weight / TopWeight` with Go's truncating division — the translated
+expression equals the model's wherever the product fits an `int` … -/
+theorem tie_weightReplicas (R : Nat) (weight : Int)
+    (h : -9223372036854775808 ≤ (R : Int) * weight ∧ (R : Int) * weight < 9223372036854775808) :
     GoZero.Extracted.C15.weightReplicas weight (R : Int) GoZero.Extracted.C15.topWeight = GoZero.C15.weightReplicas R weight := by
   unfold GoZero.Extracted.C15.weightReplicas GoZero.C15.weightReplicas GoZero.Extracted.C15.topWeight GoZero.C15.topWeight
-  rfl
+  rw [wrapInt_id _ h]
+
+/-- … and in general it is the translated division applied to the wrapped product (Go `int` is 64 bit). -/
+theorem tie_weightReplicas_overflow (R : Nat) (weight : Int) :
+    GoZero.Extracted.C15.weightReplicas (wrapInt ((R : Int) * weight)) 1 GoZero.Extracted.C15.topWeight
+      = GoZero.C15.weightReplicas R weight := by
+  unfold GoZero.Extracted.C15.weightReplicas GoZero.C15.weightReplicas GoZero.Extracted.C15.topWeight GoZero.C15.topWeight
+  rw [Int.one_mul]
+
+/-- the statement the formula was translated from (operand order, operators, the constant's name) -/
+theorem tie_weightStmt : GoZero.Extracted.C15.weightStmt = ["replicas := h.replicas * weight / TopWeight"] := rfl
 
 /-- the documented meaning of a weight: `w` percent of the ring's replicas, for 0 ≤ w ≤ 100 on the default ring -/
 theorem weight_is_percent (w : Nat) (hw : w ≤ 100) :
     GoZero.C15.clampReplicas 100 (GoZero.C15.weightReplicas 100 w) = w := by
   unfold GoZero.C15.clampReplicas GoZero.C15.weightReplicas GoZero.C15.topWeight
+  rw [wrapInt_id _ (by omega)]
   have : Int.tdiv ((100 : Nat) * (w : Int)) 100 = (w : Int) := by
     rw [Int.tdiv_eq_ediv_of_nonneg (by omega)]; omega
   rw [this]
   split <;> omega
+
+/-- weights above `TopWeight` give the full replica count (clamped by `AddWithReplicas`), weights ≤ 0 none,
+as long as the product does not overflow -/
+theorem weight_clamped (R : Nat) (hR : 100 ≤ R) (w : Int) (hw : 100 ≤ w)
+    (h : (R : Int) * w < 9223372036854775808) :
+    GoZero.C15.clampReplicas R (GoZero.C15.weightReplicas R w) = R := by
+  unfold GoZero.C15.clampReplicas GoZero.C15.weightReplicas GoZero.C15.topWeight
+  have hpos : 0 ≤ (R : Int) * w := Int.mul_nonneg (by omega) (by omega)
+  rw [wrapInt_id _ ⟨by omega, h⟩, Int.tdiv_eq_ediv_of_nonneg hpos]
+  have : (R : Int) * 100 ≤ (R : Int) * w := Int.mul_le_mul_of_nonneg_left hw (by omega)
+  have : (R : Int) ≤ (R : Int) * w / 100 := by omega
+  split <;> omega
+
+theorem weight_nonpositive (R : Nat) (w : Int) (hw : w ≤ 0) (h : -9223372036854775808 ≤ (R : Int) * w) :
+    GoZero.C15.clampReplicas R (GoZero.C15.weightReplicas R w) = 0 := by
+  unfold GoZero.C15.clampReplicas GoZero.C15.weightReplicas GoZero.C15.topWeight
+  have hneg : (R : Int) * w ≤ 0 := Int.mul_nonpos_of_nonneg_of_nonpos (by omega) hw
+  rw [wrapInt_id _ ⟨h, by omega⟩]
+  have : Int.tdiv ((R : Int) * w) 100 ≤ 0 := by
+    generalize (R : Int) * w = x at hneg
+    have e : x = -(-x) := by omega
+    rw [e, Int.neg_tdiv]
+    have := Int.tdiv_nonneg (show 0 ≤ -x by omega) (show (0:Int) ≤ 100 by omega)
+    omega
+  split <;> omega
+
+/-- overflow is real: on the default ring (100 replicas) a weight of 92233720368547759 (> 2^63/100) wraps to
+a negative product and the node gets NO virtual node, although the weight is positive. -/
+theorem weight_overflow_witness :
+    GoZero.C15.clampReplicas 100 (GoZero.C15.weightReplicas 100 92233720368547759) = 0 ∧
+    GoZero.C15.clampReplicas 128 (GoZero.C15.weightReplicas 128 144115188075855873) = 1 := by decide
 
 /-! ### skeletons and the expressions that decide what is hashed, searched and ordered -/
 
@@ -77,53 +131,16 @@ theorem tie_addShape : GoZero.Extracted.C15.addShape = [
 theorem tie_addExprs : GoZero.Extracted.C15.addExprs = [
   "call:h.AddWithReplicas(node, h.replicas)"] := rfl
 
-/-- Remove first, upper clamp, addNode, loop `i < replicas` { hash label; append key; insertRingNode }, sort keys -/
-theorem tie_addWithReplicasShape : GoZero.Extracted.C15.addWithReplicasShape = [
-  "call h.Remove",
-  "if replicas > h.replicas {",
-  "}",
-  "call repr",
-  "call h.lock.Lock",
-  "defer{",
-  "call h.lock.Unlock",
-  "}",
-  "call h.addNode",
-  "for i < replicas {",
-  "call ?",
-  "call h.hashFunc",
-  "store h.keys",
-  "call insertRingNode",
-  "mapset h.ring",
-  "}",
-  "func{",
-  "return",
-  "}",
-  "call sort.Slice"] := rfl
+/-! `AddWithReplicas` / `Remove` exist in two accepted forms:
+  * TWO critical sections (the tree as it is): `AddWithReplicas` calls `Remove(node)` — lock, body, unlock — and
+    then takes the lock again for the insertion; readers can run in between (`Conc.step … false`);
+  * ONE critical section (after fixes/C15-add-single-critical-section.patch): the body of Remove is
+    `removeLocked`, called by both under the lock (`Conc.step … true`).
+In both the removal loop and the insertion are the same statements in the same order. -/
 
-/-- label format `nodeRepr + strconv.Itoa(i)`; bucket := insertRingNode(bucket, node); keys sorted ascending -/
-theorem tie_addWithReplicasExprs : GoZero.Extracted.C15.addWithReplicasExprs = [
-  "call:h.Remove(node)",
-  "call:h.addNode(nodeRepr)",
-  "hash:[]byte(nodeRepr + strconv.Itoa(i))",
-  "set:h.keys = append(h.keys, hash)",
-  "set:h.ring[hash] = insertRingNode(h.ring[hash], node, nodeRepr)",
-  "call:insertRingNode(h.ring[hash], node, nodeRepr)",
-  "less:h.keys:h.keys[i] < h.keys[j]"] := rfl
-
-theorem tie_addWithWeightShape : GoZero.Extracted.C15.addWithWeightShape = [
-  "call h.AddWithReplicas"] := rfl
-
-/-- the weight formula feeds AddWithReplicas -/
-theorem tie_addWithWeightExprs : GoZero.Extracted.C15.addWithWeightExprs = [
-  "call:h.AddWithReplicas(node, replicas)"] := rfl
-
-/-- absent → no-op; loop `i < h.replicas` { hash label; if !removeRingNode → continue; search; delete one key }; removeNode -/
-theorem tie_removeShape : GoZero.Extracted.C15.removeShape = [
-  "call repr",
-  "call h.lock.Lock",
-  "defer{",
-  "call h.lock.Unlock",
-  "}",
+/-- the body of the removal: absent → no-op; loop `i < h.replicas` { hash label; if !removeRingNode → continue;
+lower-bound search; delete one key entry }; removeNode -/
+def removalBodyShape : List String := [
   "if !h.containsNode(nodeRepr) {",
   "return",
   "}",
@@ -141,16 +158,77 @@ theorem tie_removeShape : GoZero.Extracted.C15.removeShape = [
   "store h.keys",
   "}",
   "}",
-  "call h.removeNode"] := rfl
+  "call h.removeNode"]
 
-/-- same label format; lower-bound search `keys[i] >= hash`; one key entry deleted -/
-theorem tie_removeExprs : GoZero.Extracted.C15.removeExprs = [
+def removalBodyExprs : List String := [
   "call:h.containsNode(nodeRepr)",
   "hash:[]byte(nodeRepr + strconv.Itoa(i))",
   "call:h.removeRingNode(hash, nodeRepr)",
   "search:len(h.keys):h.keys[i] >= hash",
   "set:h.keys = append(h.keys[:index], h.keys[index+1:]...)",
-  "call:h.removeNode(nodeRepr)"] := rfl
+  "call:h.removeNode(nodeRepr)"]
+
+def lockPrefix : List String := [
+  "call repr",
+  "call h.lock.Lock",
+  "defer{",
+  "call h.lock.Unlock",
+  "}"]
+
+/-- addNode, loop `i < replicas` { hash label; append key; insertRingNode }, sort keys -/
+def insertionShape : List String := [
+  "call h.addNode",
+  "for i < replicas {",
+  "call ?",
+  "call h.hashFunc",
+  "store h.keys",
+  "call insertRingNode",
+  "mapset h.ring",
+  "}",
+  "func{",
+  "return",
+  "}",
+  "call sort.Slice"]
+
+/-- label format `nodeRepr + strconv.Itoa(i)`; bucket := insertRingNode(bucket, node); keys sorted ascending -/
+def insertionExprs : List String := [
+  "call:h.addNode(nodeRepr)",
+  "hash:[]byte(nodeRepr + strconv.Itoa(i))",
+  "set:h.keys = append(h.keys, hash)",
+  "set:h.ring[hash] = insertRingNode(h.ring[hash], node, nodeRepr)",
+  "call:insertRingNode(h.ring[hash], node, nodeRepr)",
+  "less:h.keys:h.keys[i] < h.keys[j]"]
+
+def clampShape : List String := ["if replicas > h.replicas {", "}"]
+
+/-- the tree as it is: Remove (own critical section) first, upper clamp, lock, insertion -/
+def TwoSections : Prop :=
+  GoZero.Extracted.C15.addWithReplicasShape = ["call h.Remove"] ++ clampShape ++ lockPrefix ++ insertionShape ∧
+  GoZero.Extracted.C15.addWithReplicasExprs = ["call:h.Remove(node)"] ++ insertionExprs ∧
+  GoZero.Extracted.C15.removeShape = lockPrefix ++ removalBodyShape ∧
+  GoZero.Extracted.C15.removeExprs = removalBodyExprs ∧
+  GoZero.Extracted.C15.removeLockedShape = ["ABSENT"]
+
+/-- after the fix: upper clamp, lock, removal body, insertion — one critical section -/
+def OneSection : Prop :=
+  GoZero.Extracted.C15.addWithReplicasShape = clampShape ++ lockPrefix ++ ["call h.removeLocked"] ++ insertionShape ∧
+  GoZero.Extracted.C15.addWithReplicasExprs = ["call:h.removeLocked(nodeRepr)"] ++ insertionExprs ∧
+  GoZero.Extracted.C15.removeShape = lockPrefix ++ ["call h.removeLocked"] ∧
+  GoZero.Extracted.C15.removeExprs = ["call:h.removeLocked(nodeRepr)"] ∧
+  GoZero.Extracted.C15.removeLockedShape = removalBodyShape ∧
+  GoZero.Extracted.C15.removeLockedExprs = removalBodyExprs
+
+instance : Decidable TwoSections := by unfold TwoSections; exact inferInstance
+instance : Decidable OneSection := by unfold OneSection; exact inferInstance
+
+theorem tie_critical_sections : TwoSections ∨ OneSection := by decide
+
+theorem tie_addWithWeightShape : GoZero.Extracted.C15.addWithWeightShape = [
+  "call h.AddWithReplicas"] := rfl
+
+/-- the weight formula feeds AddWithReplicas -/
+theorem tie_addWithWeightExprs : GoZero.Extracted.C15.addWithWeightExprs = [
+  "call:h.AddWithReplicas(node, replicas)"] := rfl
 
 /-- first entry with that repr only; bucket deleted when it was the last; reports whether one was removed -/
 theorem tie_removeRingNodeShape : GoZero.Extracted.C15.removeRingNodeShape = [
@@ -247,6 +325,50 @@ theorem tie_reprShape : GoZero.Extracted.C15.reprShape = [
 theorem tie_reprExprs : GoZero.Extracted.C15.reprExprs = [
   "ret:return lang.Repr(node)",
   "call:lang.Repr(node)"] := rfl
+
+/-! ### the users named by the property's anchors: how they build the ring and dispatch a key -/
+
+/-- cache.New: fatal without a positive total weight; ONE node → the node itself, no ring; otherwise
+`NewConsistentHash()` and, in configuration order, `AddWithWeight(NewNode(…), node.Weight)` with the raw
+configured weight; every method of cacheCluster dispatches its key with `cc.dispatcher.Get(key)`; the ring
+is never modified afterwards (no Add / Remove call on a dispatcher anywhere in the file). -/
+theorem tie_cacheUsers : GoZero.Extracted.C15.cacheUsers = [
+  "New:if:len(c) == 0 || TotalWeights(c) <= 0",
+  "New:if:len(c) == 1",
+  "New:hash.NewConsistentHash()",
+  "New:range:_,node:=c",
+  "New:cn := NewNode(redis.MustNewRedis(node.RedisConf), barrier, st, errNotFound, opts...)",
+  "New:dispatcher.AddWithWeight(cn, node.Weight)",
+  "DelCtx:cc.dispatcher.Get(key)",
+  "DelCtx:cc.dispatcher.Get(key)",
+  "GetCtx:cc.dispatcher.Get(key)",
+  "SetCtx:cc.dispatcher.Get(key)",
+  "SetWithExpireCtx:cc.dispatcher.Get(key)",
+  "TakeCtx:cc.dispatcher.Get(key)",
+  "TakeWithExpireCtx:cc.dispatcher.Get(key)"] := rfl
+
+/-- kv.NewStore: always a ring (one node too), `AddWithWeight(redis.MustNewRedis(…), node.Weight)` in
+configuration order; `getRedis` dispatches with `cs.dispatcher.Get(key)`. -/
+theorem tie_kvUsers : GoZero.Extracted.C15.kvUsers = [
+  "NewStore:if:len(c) == 0 || cache.TotalWeights(c) <= 0",
+  "NewStore:hash.NewConsistentHash()",
+  "NewStore:range:_,node:=c",
+  "NewStore:cn := redis.MustNewRedis(node.RedisConf)",
+  "NewStore:dispatcher.AddWithWeight(cn, node.Weight)",
+  "getRedis:cs.dispatcher.Get(key)"] := rfl
+
+/-- the repr of both node types is the redis address (`lang.Repr` calls `String()`) -/
+theorem tie_userReprs : GoZero.Extracted.C15.cacheNodeStringExprs = ["ret:return c.rds.Addr"] ∧
+    GoZero.Extracted.C15.redisStringExprs = ["ret:return s.Addr"] := ⟨rfl, rfl⟩
+
+/-- TotalWeights clamps negative weights in ITS copy only: AddWithWeight receives the raw weight -/
+theorem tie_totalWeightsShape : GoZero.Extracted.C15.totalWeightsShape = [
+  "range c {",
+  "if node.Weight < 0 {",
+  "store node.Weight",
+  "}",
+  "}",
+  "return"] := rfl
 
 /-- the default hash is murmur3 `Sum64` (Lean side: `Murmur.sum64`) -/
 theorem tie_hashExprs : GoZero.Extracted.C15.hashExprs = [
